@@ -92,6 +92,7 @@ type Report struct {
 	Samples      []json.RawMessage `json:"samples"`
 	DetMismatch  []string          `json:"det_mismatch"`
 	TaskPanics   []string          `json:"task_panics"`
+	StuckSamples []string          `json:"stuck_samples"`
 	Real         []string          `json:"real"`
 	Stub         []string          `json:"stub"`
 	Error        string            `json:"error,omitempty"`
@@ -290,6 +291,9 @@ func Main(t *testing.T, w World) {
 		}
 		if res.Stats.Stuck {
 			rep.Stuck++
+			if len(rep.StuckSamples) < 3 {
+				rep.StuckSamples = append(rep.StuckSamples, fmt.Sprintf("index %d seed %d: %v", i, c.Seed, res.Stats.StuckInfo))
+			}
 		}
 		rep.Leaked += res.Stats.Leaked
 		nontrivial := res.Stats.Contended > 0
